@@ -52,7 +52,7 @@ def acq_expander(prog, ci, branch):
 
 def is_tail_switch(node):
     """The two-arm switch whose first arm uses the erfcx-based ratio (the far-tail form)."""
-    return isinstance(node, ast.If) and bool(node.orelse) and any(
+    return isinstance(node, ast.If) and (bool(node.orelse) or (node.body and isinstance(node.body[-1], (ast.Return, ast.Raise)))) and any(
         isinstance(n, ast.Call) and U(n.func) == "self.cdf_pdf_ratio"
         for st in node.body for n in ast.walk(st))
 
@@ -166,10 +166,10 @@ def run(prog, tier):
     for call, st_ in apps:
         t = rs.term(call.args[0], st_)
         b = None
-        for pt in ("sorted([minimum(_U, maximum(_L, _s)) for _s in _], key=self.opt_func)[0]",
-                   "min([minimum(_U, maximum(_L, _s)) for _s in _], key=self.opt_func)",
-                   "sorted([maximum(_L, minimum(_U, _s)) for _s in _], key=self.opt_func)[0]",
-                   "sorted([clip(_s, _L, _U) for _s in _], key=self.opt_func)[0]",
+        for pt in ("sorted([minimum(_U, maximum(_L, _e)) for _v in _], key=self.opt_func)[0]",
+                   "min([minimum(_U, maximum(_L, _e)) for _v in _], key=self.opt_func)",
+                   "sorted([maximum(_L, minimum(_U, _e)) for _v in _], key=self.opt_func)[0]",
+                   "sorted([clip(_e, _L, _U) for _v in _], key=self.opt_func)[0]",
                    "_L + (_U - _L) * random(size=_n)", "_L + (_U - _L) * random(_n)"):
             b = pmatch(t, pt)
             if b is not None:
